@@ -510,10 +510,11 @@ func (wg *WeightedAuthorizationModelGraph) calculateNodeWeightWithEnforceTypeStr
 		return fmt.Errorf("%w: %s node does not have any terminal type to reach to", ErrInvalidModel, node.uniqueLabel)
 	}
 
-	for _, edge := range edges {
+	for idx, edge := range edges {
 		// for but not ensure that the first edge is the left edge
-		// the first time, take the weights of the edge
-		if len(weights) == 0 {
+		// the first time, take the weights of the edge. Only the first time: when the running
+		// intersection becomes empty it has to stay empty, it must not be re-seeded by the next edge
+		if idx == 0 {
 			for key, value := range edge.weights {
 				weights[key] = value
 			}
